@@ -19,6 +19,7 @@ from sa.util import (
     func_key,
     guards_of,
     names_read,
+    returns_of,
     site_for,
     where,
 )
@@ -254,6 +255,52 @@ def r14_single_start(ctx: Context) -> None:
         raise AnalysisError("PluginManager.starting_new_file: the test that applies the rule list was not found")
 
 
+def _pass_filter_only(prog: Program, func: FuncInfo, expr: ast.AST, plugin_var: str, depth: int, trusted: Optional[Set[str]] = None) -> bool:
+    """Does ``expr`` depend on nothing but the parameters of the dispatcher (the context, the context map, the
+    list of rules of the pass) and the id of the plugin at hand?  Locals are followed to what they were
+    assigned from, helper methods of the same class to what they return."""
+    if depth > 4:
+        return False
+    trusted = trusted if trusted is not None else set(func.params[1:] if func.kind == "instance" else func.params)
+    if isinstance(expr, ast.Constant):
+        return True
+    if isinstance(expr, ast.Name):
+        if expr.id in trusted or expr.id == plugin_var:
+            return True
+        values = [n.value for n in walk_local(func.node) if isinstance(n, ast.Assign) and any(isinstance(t, ast.Name) and t.id == expr.id for t in n.targets)]
+        return bool(values) and all(_pass_filter_only(prog, func, v, plugin_var, depth + 1, trusted) for v in values)
+    if isinstance(expr, ast.Attribute):
+        if isinstance(expr.value, ast.Name) and (expr.value.id == plugin_var or expr.value.id in trusted) and expr.attr in ("plugin_id", "plugin_identifiers"):
+            return True
+        return False
+    if isinstance(expr, ast.Call):
+        site = site_for(prog, func, expr)
+        arguments = list(expr.args) + [k.value for k in expr.keywords]
+        if not all(_pass_filter_only(prog, func, a, plugin_var, depth + 1, trusted) for a in arguments):
+            return False
+        if site is not None and site.targets and all(t.cls is not None and t.cls == func.cls for t in site.targets):
+            for target in site.targets:
+                inner_trusted = set(target.params[1:] if target.kind == "instance" else target.params)
+                returned = returns_of(target)
+                if not returned or not all(_pass_filter_only(prog, target, r, "", depth + 1, inner_trusted) for r in returned):
+                    return False
+            return True
+        if isinstance(expr.func, ast.Attribute) and expr.func.attr in ("get", "keys", "values", "items") :
+            return _pass_filter_only(prog, func, expr.func.value, plugin_var, depth + 1, trusted)
+        return False
+    if isinstance(expr, (ast.BoolOp,)):
+        return all(_pass_filter_only(prog, func, v, plugin_var, depth + 1, trusted) for v in expr.values)
+    if isinstance(expr, ast.UnaryOp):
+        return _pass_filter_only(prog, func, expr.operand, plugin_var, depth + 1, trusted)
+    if isinstance(expr, ast.Compare):
+        return all(_pass_filter_only(prog, func, v, plugin_var, depth + 1, trusted) for v in [expr.left] + list(expr.comparators))
+    if isinstance(expr, ast.Subscript):
+        return _pass_filter_only(prog, func, expr.value, plugin_var, depth + 1, trusted) and _pass_filter_only(prog, func, expr.slice, plugin_var, depth + 1, trusted)
+    if isinstance(expr, ast.IfExp):
+        return all(_pass_filter_only(prog, func, v, plugin_var, depth + 1, trusted) for v in (expr.test, expr.body, expr.orelse))
+    return False
+
+
 def r14c(ctx: Context, rule_id: str = "R14c") -> None:
     """Four-way agreement of the dispatch tables (also R12d)."""
     prog = ctx.prog
@@ -371,8 +418,9 @@ def r14c(ctx: Context, rule_id: str = "R14c") -> None:
             if any(isinstance(s, ast.Continue) for s in node.body):
                 text = norm(node.test)
                 fkey = f"{key}: filter '{text}'"
-                if ("context_map" in text or "constraint_id_list" in text) and "plugin_id" in text:
-                    rule.ok(fkey, "documented pass filter")
+                loop_var = loop.target.id if isinstance(loop.target, ast.Name) else ""
+                if _pass_filter_only(prog, dispatcher, node.test, loop_var, 0):
+                    rule.ok(fkey, "documented pass filter: decided by the pass's context map / rule list and the plugin's id only")
                 else:
                     rule.fail(fkey, where(dispatcher, node), f"PluginManager.{callback} skips plugins on '{text}', which is not a pass filter: an enabled rule misses events")
 
